@@ -187,7 +187,7 @@ def load_known(prop):
 
 def run_env():
     e = dict(os.environ)
-    e["ASAN_OPTIONS"] = "detect_leaks=1:abort_on_error=0:exitcode=66:allocator_may_return_null=1:detect_stack_use_after_return=0"
+    e["ASAN_OPTIONS"] = "detect_leaks=1:abort_on_error=0:exitcode=66:allocator_may_return_null=1:detect_stack_use_after_return=0:quarantine_size_mb=64"
     e["UBSAN_OPTIONS"] = "print_stacktrace=1:halt_on_error=1:exitcode=66"
     e["TSAN_OPTIONS"] = "halt_on_error=1:exitcode=66:second_deadlock_stack=1"
     e.pop("RC_PARAMS", None)
@@ -373,6 +373,19 @@ def run_property(prop, tier):
         seed = 1000003  # rapidcheck treats 0 as "random"
     spec = PT.PROPS[prop]
     jobs = PT.prop_jobs(prop, tier)
+    # bound the memory of a worker process (ASan quarantine and per-case bookkeeping grow with the number of cases): long jobs are cut
+    # into consecutive processes of at most CHUNK cases, each with its own seed
+    CHUNK = 100000
+    expanded = []
+    for j in jobs:
+        if not j.get("fuzz") and j["cases"] > CHUNK:
+            n = -(-j["cases"] // CHUNK)
+            for _ in range(n):
+                jj = dict(j); jj["cases"] = -(-j["cases"] // n)
+                expanded.append(jj)
+        else:
+            expanded.append(j)
+    jobs = expanded
     targets = list(dict.fromkeys(j["target"] for j in jobs))
     os.makedirs(REPLAYS, exist_ok=True)
     os.makedirs(EVID, exist_ok=True)
